@@ -285,6 +285,44 @@ where
             seq.push((it.count() as i64, (0, 0, 0)));
             AdaptOut { len: Some(len), hint, seq }
         }
+        Comp::BacksThenFold | Comp::BacksThenCount | Comp::BacksThenLast | Comp::BacksThenForEach | Comp::NextsThenRfold | Comp::NextsThenLast => {
+            let mut it = it;
+            let mut seq: Vec<(i64, Elem)> = Vec::new();
+            let front = matches!(comp, Comp::NextsThenRfold | Comp::NextsThenLast);
+            for _ in 0..a {
+                if front {
+                    seq.extend(it.next().map(|e| (-5, cv(e))));
+                } else {
+                    seq.extend(it.next_back().map(|e| (-6, cv(e))));
+                }
+            }
+            let len = it.len();
+            let hint = it.size_hint();
+            match comp {
+                Comp::BacksThenFold => {
+                    let mut ids = Vec::new();
+                    let n = it.fold(0usize, |acc, x| {
+                        ids.push(cv(x));
+                        acc + 1
+                    });
+                    seq.extend(ids.into_iter().map(|e| (-1i64, e)));
+                    seq.push((n as i64, (0, 0, 0)));
+                }
+                Comp::BacksThenForEach => {
+                    let mut ids = Vec::new();
+                    it.for_each(|x| ids.push(cv(x)));
+                    seq.extend(ids.into_iter().map(|e| (-1i64, e)));
+                }
+                Comp::BacksThenCount => seq.push((it.count() as i64, (0, 0, 0))),
+                Comp::NextsThenRfold => {
+                    let mut ids = Vec::new();
+                    it.rfold((), |_, x| ids.push(cv(x)));
+                    seq.extend(ids.into_iter().map(|e| (-1i64, e)));
+                }
+                _ => seq.extend(it.last().map(|e| (-9, cv(e)))),
+            }
+            AdaptOut { len: Some(len), hint, seq }
+        }
     }
 }
 
@@ -356,6 +394,16 @@ pub fn adapt_plain<I: Iterator<Item = T>, T, C: Fn(T) -> Elem + Copy>(it: I, cv:
             }
             let hint = it.size_hint();
             seq.push((it.count() as i64, (0, 0, 0)));
+            Some(AdaptOut { len: None, hint, seq })
+        }
+        Comp::NextsThenLast => {
+            let mut it = it;
+            let mut seq: Vec<(i64, Elem)> = Vec::new();
+            for _ in 0..a {
+                seq.extend(it.next().map(|e| (-5, cv(e))));
+            }
+            let hint = it.size_hint();
+            seq.extend(it.last().map(|e| (-9, cv(e))));
             Some(AdaptOut { len: None, hint, seq })
         }
         _ => None,
@@ -645,8 +693,26 @@ impl<'c, Q: Queue> Interp<'c, Q> {
 
     pub fn do_adapt(&mut self, which: ItKind, comp: Comp, a: u8, b: u8) {
         let n = self.model.len();
-        let a = (a as usize) % (n + 2);
-        let b = (b as usize) % (n + 3);
+        // arguments: mostly within reach of the length; the top of the byte range maps to values near
+        // usize::MAX (legal for nth/skip/take/step_by, and where cursor arithmetic overflows)
+        let huge = |x: u8| -> Option<usize> {
+            if x >= 250 {
+                Some(usize::MAX - (255 - x) as usize)
+            } else {
+                None
+            }
+        };
+        let loops = matches!(
+            comp,
+            Comp::NextsThenNthBack | Comp::BacksThenNth | Comp::NextsThenCount | Comp::BacksThenFold | Comp::BacksThenCount | Comp::BacksThenLast | Comp::BacksThenForEach | Comp::NextsThenRfold | Comp::NextsThenLast
+        );
+        let (a, b) = (
+            if loops { (a as usize) % (n + 2) } else { huge(a).unwrap_or((a as usize) % (n + 2)) },
+            if matches!(comp, Comp::Zip | Comp::ZipRev) { (b as usize) % (n + 3) } else { huge(b).unwrap_or((b as usize) % (n + 3)) },
+        );
+        if a > n + 2 || b > n + 3 {
+            self.stats.hit("adaptor_huge_argument");
+        }
         let byref = |(k, p): (&Key, &Prio)| elem(k, p);
         // the reference sequence: the iterator's own order, collected by plain `next` calls
         let (got, reference): (Option<AdaptOut>, Vec<Elem>) = match which {
@@ -732,7 +798,7 @@ impl<'c, Q: Queue> Interp<'c, Q> {
             // front: sorted sequences are compared on priorities
             let proj = |mut o: AdaptOut| {
                 for e in o.seq.iter_mut() {
-                    if !matches!(comp, Comp::Rposition | Comp::Fold | Comp::Count | Comp::Rfold | Comp::PositionThenRest | Comp::NextsThenCount) || e.0 < 0 {
+                    if !matches!(comp, Comp::Rposition | Comp::Fold | Comp::Count | Comp::Rfold | Comp::PositionThenRest | Comp::NextsThenCount | Comp::BacksThenFold | Comp::BacksThenCount) || e.0 < 0 {
                         e.1 = (0, 0, e.1 .2);
                     }
                 }
@@ -751,7 +817,7 @@ impl<'c, Q: Queue> Interp<'c, Q> {
             let mut d = ids.clone();
             d.sort_unstable();
             d.dedup();
-            let plain_seq = !matches!(comp, Comp::Peekable | Comp::Rposition | Comp::Count | Comp::Fold | Comp::Chain | Comp::Rfold | Comp::PositionThenRest | Comp::NextsThenCount | Comp::Map);
+            let plain_seq = !matches!(comp, Comp::Peekable | Comp::Rposition | Comp::Count | Comp::Fold | Comp::Chain | Comp::Rfold | Comp::PositionThenRest | Comp::NextsThenCount | Comp::Map | Comp::BacksThenCount);
             if plain_seq && d.len() != ids.len() {
                 self.fail(Group::Alias, "adaptor_yielded_twice", format!("iter_mut().{:?}({},{}) handed out an element twice: ids {:?}", comp, a, b, ids));
             } else if got.seq != want.seq || (got.len.is_some() && want.len.is_some() && (got.len != want.len || got.hint != want.hint)) {
@@ -781,7 +847,7 @@ impl<'c, Q: Queue> Interp<'c, Q> {
                 format!("{:?}.{:?}({},{}).size_hint() = {:?}, expected {:?}", which, comp, a, b, got.hint, want.hint),
             );
         }
-        if got.len.is_none() && !matches!(comp, Comp::Rposition | Comp::Nth | Comp::NthBack | Comp::Fold | Comp::Last | Comp::Rfold | Comp::FindThenRest | Comp::RfindThenRest | Comp::PositionThenRest | Comp::NextsThenCount | Comp::NthThenNthBack | Comp::NextsThenNthBack | Comp::BacksThenNth) && !hint_ok(got.hint, expected_count(&want, comp)) {
+        if got.len.is_none() && !matches!(comp, Comp::Rposition | Comp::Nth | Comp::NthBack | Comp::Fold | Comp::Last | Comp::Rfold | Comp::FindThenRest | Comp::RfindThenRest | Comp::PositionThenRest | Comp::NextsThenCount | Comp::NthThenNthBack | Comp::NextsThenNthBack | Comp::BacksThenNth | Comp::BacksThenFold | Comp::BacksThenCount | Comp::BacksThenLast | Comp::BacksThenForEach | Comp::NextsThenRfold | Comp::NextsThenLast) && !hint_ok(got.hint, expected_count(&want, comp)) {
             self.fail(Group::IterStd, "adaptor_size_hint_bound", format!("{:?}.{:?}: size_hint {:?} does not bound the {} items produced", which, comp, got.hint, want.seq.len()));
         }
         self.stats.hit("adaptor_run");
